@@ -25,6 +25,8 @@ type FuncInfo struct {
 	Pkg   *PkgInfo
 	Name  string // pkg-relative display name: (Recv).Name or Name
 	Contr *Contract
+	Lit   *ast.FuncLit // non-nil: the n-th function literal of Outer, verified as a function of its parameters and captured variables
+	Outer *FuncInfo
 }
 
 type Program struct {
